@@ -158,6 +158,8 @@ class Sched:
         return getattr(_tls, 'ts', None)
 
     def log(self, *ev):
+        if self.aborted:
+            return
         self.trace.append((self.now, self.current_id()) + ev)
 
     # ------------------------------------------------------------------ core
@@ -313,6 +315,8 @@ class Sched:
         pass
 
     def loop_event(self, loop, what):
+        if self.aborted:
+            return                  # tear-down of an aborted execution: not part of the history
         self.trace.append((self.now, self.current_id(), 'loop', loop.vname, what))
         if what in ('run_end', 'closed'):
             self.point(what)
